@@ -917,3 +917,23 @@ package channel
 //@   method Err
 //@     requires recv != nil
 //@ end
+
+// Ledger-side interfaces (external): funder and adjudicator.
+//@ interface Funder
+//@   method Fund
+//@     requires recv != nil
+//@ end
+//@ interface Adjudicator
+//@   method Withdraw
+//@     requires recv != nil
+//@   method Register
+//@     requires recv != nil
+//@   method Progress
+//@     requires recv != nil
+//@   method Subscribe
+//@     requires recv != nil
+//@ end
+//@ interface Withdrawer
+//@   method Withdraw
+//@     requires recv != nil
+//@ end
